@@ -21,7 +21,7 @@ func init() { register(c06{}) }
 func (c06) ID() string    { return "C06" }
 func (c06) Level() string { return "exploration" }
 func (c06) Rule() string {
-	return "two workloads, drawn by rapid from the seed. (A) sequential histories: one client, the worker single-stepped through a gated recording appender; random sequences over {append event, raw write, let the worker take one item} from an empty, partially full or full buffer, every policy; checked operation by operation against an executable bounded-FIFO model (capacity = configured bufferSize, one item in the worker's hand): delivered sequence, discard counter, and whether the client is blocked must all equal the model. (B) concurrent: 2-8 producers after a sequential prefill close to capacity, gate opened at scheduler-chosen steps or held for the whole run; per-producer delivery order; for Discard and Block the recorded history (invoke/return stamped with scheduler step numbers, worker takes stamped with [previous item done, appender entry]) is checked with porcupine against the atomic queue model (Unknown = inconclusive, counted, never reported); for DiscardOldest only consequences valid for every legal behaviour. Non-trivial = overflow actually happened (model or counter) in A, or at least two overlapping operations plus a full buffer in B; distinct = distinct context-switch trace hashes combined with the operation sequence."
+	return "two workloads, drawn by rapid from the seed. (A) sequential histories: one client, the worker single-stepped through a gated recording appender; random sequences over {append event, raw write, let the worker take one item} from an empty, partially full or full buffer, every policy; checked operation by operation against an executable bounded-FIFO model (capacity = configured bufferSize, one item in the worker's hand): delivered sequence, discard counter, and whether the client is blocked must all equal the model. (B) concurrent: 2-8 producers after a sequential prefill close to capacity, gate opened at scheduler-chosen steps or held for the whole run; per-producer delivery order; for Discard and Block the recorded history (invoke/return stamped with scheduler step numbers, worker takes stamped with [previous item done, appender entry]) is checked with porcupine against the atomic queue model (Unknown = inconclusive, counted, never reported); for DiscardOldest only consequences valid for every legal behaviour. Non-trivial = overflow actually happened (model or counter) in A, or at least two overlapping operations plus a full buffer in B; distinct = distinct context-switch trace hashes combined with the operation sequence. (C) async RollingFile logger (with/without .wf file), 1-3 producers mixing events and raw writes of 3 B-40 KB, worker often starved: per file and producer the items appear in submission order, each exactly once where it belongs. Raw payloads of 40 000 bytes occur in A and B too; a quarter of the directly built loggers run the workload in their second life."
 }
 func (c06) Decode(raw json.RawMessage) (any, error) {
 	var s AsyncScn
